@@ -826,6 +826,67 @@ fn round_trip_case(rng: &mut Rng) -> Case {
     }
 }
 
+/// Family `roundtrip-two-writers` (after a wave-12 seed: PRINT #n went through a buffered writer whose line
+/// terminator stayed in the handle's buffer until its next PRINT or CLOSE): two or three handles open FOR APPEND on
+/// the SAME file at the same time, whole lines printed through them in a random interleaving, all closed, the file read
+/// back: the lines come back unchanged and in the order in which they were printed.
+fn two_writers_case(rng: &mut Rng) -> Case {
+    let k = rng.below(3) as u8;
+    let n = Nm::P(k);
+    let nh = rng.range(2, 3) as u32;
+    let mut init: Init = vec![(3, None)];
+    let mut expect: Vec<Vec<u8>> = vec![];
+    let mut bytes: Vec<u8> = vec![];
+    if rng.chance(1, 2) {
+        for _ in 0..rng.range(1, 2) {
+            let l = random_line(rng, false);
+            bytes.extend_from_slice(&l);
+            bytes.extend_from_slice(b"\r\n");
+            expect.push(l);
+        }
+        init.push((k, Some(bytes.clone())));
+    }
+    let mut ops = vec![];
+    let mut oracle = vec![];
+    for h in 1..=nh {
+        ops.push(Op::Open { h, n, m: Md::A, len: 0 });
+        oracle.push(some("ok"));
+    }
+    for _ in 0..rng.range(2, 6) {
+        let h = rng.range(1, nh as i64) as u32;
+        let l = random_line(rng, false);
+        ops.push(Op::Print { h, items: vec![l.clone()], nl: true });
+        oracle.push(some("ok"));
+        bytes.extend_from_slice(&l);
+        bytes.extend_from_slice(b"\r\n");
+        expect.push(l);
+    }
+    if rng.chance(1, 2) {
+        ops.push(Op::Close(vec![]));
+        oracle.push(some("ok"));
+    } else {
+        for h in 1..=nh {
+            ops.push(Op::Close(vec![h]));
+            oracle.push(some("ok"));
+        }
+    }
+    let h = 1;
+    ops.push(Op::Open { h, n, m: Md::I, len: 0 });
+    oracle.push(some("ok"));
+    for l in &expect {
+        ops.push(Op::Eof { h });
+        oracle.push(some("f0"));
+        ops.push(Op::Line { h, v: 0 });
+        oracle.push(Some(out_v(l)));
+    }
+    ops.push(Op::Eof { h });
+    oracle.push(some("f1"));
+    let mut entries: Vec<(u32, String)> = vec![(3, "d".into()), (k as u32, bytes_str(&bytes))];
+    entries.sort();
+    let oracle_listing = entries.iter().map(|(k, b)| format!("{}={}", k, b)).collect::<Vec<_>>().join(";");
+    Case { family: "roundtrip-two-writers", init, stdin: vec![], ops, trap: true, oracle, oracle_listing: Some(oracle_listing), ..Default::default() }
+}
+
 // ---- byte values for the RANDOM-file families (after a wave-9 seed) -------------------------------------
 //
 // A BASIC string is a sequence of bytes; the implementation keeps the byte b as the character U+00b, so a byte of
@@ -1945,6 +2006,10 @@ fn build_cases(rng: &mut Rng, thorough: bool, parts: &mut Vec<String>) -> (Vec<C
     let n_shape = if thorough { 20_000 } else { 1_500 };
     for _ in 0..n_shape {
         let c = round_trip_case(rng);
+        cases.push(c);
+    }
+    for _ in 0..n_shape / 3 {
+        let c = two_writers_case(rng);
         cases.push(c);
     }
     for _ in 0..n_shape {
